@@ -82,7 +82,18 @@ def normalize_like(expr):
             "square",
             "asin_acos_kernel",
         }:
-            expr = expr.operands[0]
+            if len(expr.operands) > 1:
+                # the reference operand must carry the type of the expression: take the first operand that does
+                try:
+                    typ = expr.get_type()
+                    same = [o for o in expr.operands if isinstance(o, Expr) and o.get_type().is_same(typ)]
+                except NotImplementedError:
+                    same = [expr.operands[0]]
+                if not same:
+                    break
+                expr = same[0]
+            else:
+                expr = expr.operands[0]
         elif expr.kind == "absolute" and not expr.operands[0].is_complex:
             expr = expr.operands[0]
         elif expr.kind == "real" and expr.operands[0].kind == "complex":
